@@ -30,7 +30,7 @@ PROP = 'C16'
 
 WRITE_FAULTS = ('crash_write', 'enospc', 'eio_write')
 READ_FAULTS = ('eio_open', 'eio_read', 'short_read', 'vanish')
-DAMAGE_KINDS = ('truncate', 'empty', 'zero_tail', 'ff_tail', 'rand_tail', 'text')
+DAMAGE_KINDS = ('truncate', 'empty', 'zero_tail', 'ff_tail', 'rand_tail', 'text', 'bitflip', 'prepend', 'drop_head')
 
 
 def setup():
@@ -194,7 +194,7 @@ def generate(run_seed: int, tier: str = 'quick', stream: str = 'seq') -> dict:
         op = {'op': 'DAMAGE', 'target': target, 'kind': kind}
         if kind not in ('empty', 'text'):
             op['kf'] = round(rng.random(), 4) if rng.chance(0.8) else rng.pick([0.0, 0.9999])
-        if kind == 'rand_tail':
+        if kind in ('rand_tail', 'bitflip'):
             op['seed'] = rng.getrandbits(32)
         return op
 
@@ -577,6 +577,15 @@ class Run:
             elif kind == 'rand_tail':
                 g = np.random.default_rng(op.get('seed', 0))
                 new = orig[:k] + g.integers(0, 256, n - k, dtype=np.uint8).tobytes()
+            elif kind == 'bitflip':  # one flipped stored bit
+                b = bytearray(orig)
+                if n:
+                    b[min(k, n - 1)] ^= 1 << (op.get('seed', 0) % 8)
+                new = bytes(b)
+            elif kind == 'prepend':  # a stale block in front of the data
+                new = b'\x00' * (1 + k % 7) + orig
+            elif kind == 'drop_head':  # the first block was lost
+                new = orig[1 + k % 64:]
             else:
                 raise HarnessError(f'unknown damage {kind}')
         with REAL_OPEN(path, 'wb') as f:
